@@ -31,9 +31,10 @@ class Vec:
 class It:
     """iterator value: the remaining items"""
 
-    def __init__(self, items, adapters=()):
+    def __init__(self, items, adapters=(), extra=None):
         self.items = tuple(items)
         self.adapters = tuple(adapters)
+        self.extra = extra or {}     # e.g. the remainder of chunks_exact
 
     def __repr__(self):
         return "It%s" % (self.items,)
@@ -196,8 +197,12 @@ def iter_items(interp, env, v):
         if by_value:
             return list(items)
         return [HRef(v.vid, (v.lo or 0) + i) for i in range(len(items))]
-    if isinstance(v, Agg) and v.kind in ("array", "tuple"):
+    if isinstance(v, Agg) and v.kind in ("array", "tuple", "slice"):
         return list(v.fields)
+    if isinstance(v, Agg) and v.name in ("core::ops::range::Range", "core::ops::range::RangeInclusive") and len(v.fields) >= 2 \
+            and all(isinstance(x, int) and not isinstance(x, bool) for x in v.fields[:2]):
+        hi = v.fields[1] + (1 if v.name.endswith("Inclusive") else 0)
+        return list(range(v.fields[0], hi)) if hi - v.fields[0] <= 4096 else None
     if isinstance(v, Agg) and v.name == "core::option::Option":
         return list(v.fields[:1]) if v.variant == "Some" else []
     if isinstance(v, Agg) and v.name == "core::result::Result":
@@ -417,6 +422,9 @@ def coll_oracle(interp, env, f, args, t, bb, path):
             return unit
         if k == "alloc::vec::Vec::extend_from_slice":
             src = load(interp, env, args[1])
+            if isinstance(src, Agg) and src.kind in ("slice", "array"):
+                view_set(interp, v0, items + [load1(interp, env, x) if isinstance(x, (HRef, Ref)) else x for x in src.fields])
+                return unit
             if isinstance(src, Vec):
                 view_set(interp, v0, items + list(view_get(interp, src)))
                 return unit
@@ -503,7 +511,9 @@ def coll_oracle(interp, env, f, args, t, bb, path):
             refs = [HRef(v0.vid, off + i) for i in range(len(items))]
             out = [Agg("slice", None, None, refs[i:i + c]) for i in range(0, len(refs), c)]
             if nm.startswith("chunks_exact"):
+                rem = [x for x in out if len(x.fields) != c]
                 out = [x for x in out if len(x.fields) == c]
+                return It(out, extra={"remainder": rem[0] if rem else Agg("slice", None, None, [])})
             return It(out)
         if nm == "windows" and isinstance(args[1], int) and args[1] > 0:
             refs = [HRef(v0.vid, off + i) for i in range(len(items))]
@@ -559,6 +569,30 @@ def coll_oracle(interp, env, f, args, t, bb, path):
                 return "DIVERGE"
             x_ = v0.fields[rng_arg]
             return x_ if isinstance(x_, HRef) else x_
+        if nm in ("sort", "sort_unstable", "reverse", "swap", "rotate_left", "rotate_right") and isinstance(a0, Ref) and v0.kind == "array":
+            flds = list(v0.fields)
+            if nm in ("sort", "sort_unstable"):
+                ks = [rank(interp, env, x) for x in flds]
+                if any(k_ is None for k_ in ks):
+                    return TOP
+                flds = [flds[i] for i in sorted(range(len(flds)), key=lambda i: ks[i])]
+            elif nm == "reverse":
+                flds = flds[::-1]
+            elif nm == "swap" and all(isinstance(x, int) and not isinstance(x, bool) for x in args[1:3]):
+                if max(args[1], args[2]) >= len(flds):
+                    return "DIVERGE"
+                flds[args[1]], flds[args[2]] = flds[args[2]], flds[args[1]]
+            elif nm in ("rotate_left", "rotate_right") and isinstance(args[1], int):
+                k_ = args[1]
+                if k_ > len(flds):
+                    return "DIVERGE"
+                if nm == "rotate_right":
+                    k_ = len(flds) - k_
+                flds = flds[k_:] + flds[:k_]
+            else:
+                return TOP
+            interp.write_ref(env, a0, Agg(v0.kind, v0.name, v0.variant, flds))
+            return unit
         if nm in ("first", "last") and len(args) == 1:
             return (some(v0.fields[0 if nm == "first" else -1]) if v0.fields else NONE)
         if nm == "is_empty":
@@ -663,10 +697,21 @@ def coll_oracle(interp, env, f, args, t, bb, path):
         return It([Agg("tuple", None, None, list(xs)) for xs in zip(*lists)])
     if isinstance(v0, It):
         it = v0
+        if nm in ("remainder", "into_remainder") and "remainder" in it.extra:
+            return it.extra["remainder"]
+        if nm == "by_ref":
+            return a0
         if nm == "next" and isinstance(a0, Ref):
             if not it.items:
                 return NONE
-            interp.write_ref(env, a0, It(it.items[1:]))
+            r_ = a0
+            for _ in range(4):          # `&mut &mut iterator`: advance the iterator itself
+                tgt_ = interp.read_ref(env, r_)
+                if isinstance(tgt_, Ref):
+                    r_ = tgt_
+                else:
+                    break
+            interp.write_ref(env, r_, It(it.items[1:], extra=it.extra))
             return some(it.items[0])
         if nm == "next":
             return some(it.items[0]) if it.items else NONE
@@ -689,7 +734,15 @@ def coll_oracle(interp, env, f, args, t, bb, path):
             if other is None:
                 return TOP
             return It(list(it.items) + other)
+        if nm == "unzip" and len(args) == 1:
+            xs = [load(interp, env, x) for x in it.items]
+            if all(isinstance(x, Agg) and x.kind == "tuple" and len(x.fields) == 2 for x in xs):
+                return Agg("tuple", None, None, [new_vec(interp, [x.fields[0] for x in xs]), new_vec(interp, [x.fields[1] for x in xs])])
+            return TOP
         if nm == "zip" and len(args) == 2:
+            o_ = load(interp, env, args[1])
+            if isinstance(o_, Agg) and o_.name == "core::ops::range::RangeFrom" and o_.fields and isinstance(o_.fields[0], int):
+                return It([Agg("tuple", None, None, [a, o_.fields[0] + i]) for i, a in enumerate(it.items)])
             other = iter_items(interp, env, args[1])
             if other is None:
                 return TOP
